@@ -14,12 +14,15 @@ use crate::{for_elem, for_pair};
 
 pub fn run(c: &mut Ctx) {
     c.run_scenarios(|c, idx, rng| {
-        let which = crate::util::mix(idx) % 3;
-        if which < 2 {
-            let pair = PAIRS[((crate::util::mix(idx) / 3) % PAIRS.len() as u64) as usize];
+        let which = crate::util::mix(idx) % 7;
+        if which == 6 {
+            let e = ELEMS[((crate::util::mix(idx) / 7) % ELEMS.len() as u64) as usize];
+            for_elem!(e, set_scenario(c, idx, rng));
+        } else if which % 3 < 2 {
+            let pair = PAIRS[((crate::util::mix(idx) / 7) % PAIRS.len() as u64) as usize];
             for_pair!(pair, map_scenario(c, idx, rng));
         } else {
-            let e = ELEMS[((crate::util::mix(idx) / 3) % ELEMS.len() as u64) as usize];
+            let e = ELEMS[((crate::util::mix(idx) / 7) % ELEMS.len() as u64) as usize];
             for_elem!(e, table_scenario(c, idx, rng));
         }
     });
@@ -74,4 +77,140 @@ pub fn table_scenario<E: Elem>(c: &mut Ctx, _idx: u64, rng: &mut Rng) {
         }
     }
     drop(d);
+}
+
+/// HashSet: point operations and set-algebra iterators, with iterators/drains/entries forgotten part-way.
+pub fn set_scenario<T: Elem>(c: &mut Ctx, _idx: u64, rng: &mut Rng) {
+    use crate::plan::KeyRef;
+    use crate::states::{build, Coll, SetC, Spec, RECIPES};
+    let r1 = RECIPES[rng.usize_below(RECIPES.len())];
+    let r2 = RECIPES[rng.usize_below(RECIPES.len())];
+    let spec = Spec::random(rng, r1);
+    let spec2 = Spec::random(rng, r2);
+    let mut s: SetC<T> = build(&spec);
+    let other: SetC<T> = build(&spec2);
+    let mut desc = Json::obj();
+    desc.set("collection", Json::s(format!("HashSet<{}>", T::NAME)));
+    desc.set("state", Json::s(spec.describe()));
+    desc.set("other", Json::s(spec2.describe()));
+    c.describe(desc);
+    c.sig_parts(&[3, crate::ctx::prop_salt(T::NAME)]);
+    let universe = (s.len() as u32 * 2 + 6).min(T::ID_SPACE);
+    let n_ops = if c.is_miri() { 12 } else { 40 };
+    for step in 0..n_ops {
+        c.evaluations += 1;
+        let id = rng.below(universe as u64) as u32;
+        let len = s.len();
+        let k = rng.usize_below(len + 1);
+        let op = rng.below(14);
+        c.log(format!("set op {} id {} k {}", op, id, k));
+        match op {
+            0 => {
+                s.0.insert(T::make(id, step as u16));
+            }
+            1 => {
+                s.0.remove(&KeyRef(id));
+            }
+            2 => {
+                if let Some(x) = s.0.replace(T::make(id, step as u16)) {
+                    x.check();
+                }
+            }
+            3 => {
+                if let Some(x) = s.0.take(&KeyRef(id)) {
+                    x.check();
+                }
+            }
+            4 => {
+                s.0.get_or_insert(T::make(id, step as u16)).check();
+            }
+            5 => {
+                let mut d = s.0.drain();
+                for _ in 0..k {
+                    if let Some(x) = d.next() {
+                        x.check();
+                    }
+                }
+                std::mem::forget(d);
+                c.leak_ok = true;
+                crate::check!(s.0.is_empty(), "HashSet after a leaked Drain reports len {}", s.0.len());
+            }
+            6 => {
+                let mut it = s.0.extract_if(|x| x.id() % 2 == 0);
+                for _ in 0..k {
+                    match it.next() {
+                        Some(x) => {
+                            x.check();
+                        }
+                        None => break,
+                    }
+                }
+                std::mem::forget(it);
+            }
+            7 => {
+                let mut it = s.0.iter();
+                for _ in 0..k {
+                    it.next();
+                }
+                std::mem::forget(it);
+            }
+            8 => {
+                let old = std::mem::replace(&mut s, SetC::<T>::with_cap(spec.plan_bh(), 0));
+                let mut it = old.0.into_iter();
+                for _ in 0..k {
+                    if let Some(x) = it.next() {
+                        x.check();
+                    }
+                }
+                std::mem::forget(it);
+                c.leak_ok = true;
+            }
+            9 => {
+                let mut it = s.0.union(&other.0);
+                for _ in 0..k {
+                    if let Some(x) = it.next() {
+                        x.check();
+                    }
+                }
+                std::mem::forget(it);
+            }
+            10 => {
+                let mut n = 0;
+                for x in s.0.intersection(&other.0).chain(s.0.difference(&other.0)).chain(s.0.symmetric_difference(&other.0)) {
+                    x.check();
+                    n += 1;
+                    if n > k {
+                        break;
+                    }
+                }
+            }
+            11 => {
+                let e = s.0.entry(T::make(id, step as u16));
+                if matches!(e, hashbrown::hash_set::Entry::Vacant(_)) && T::TRACKED {
+                    c.leak_ok = true;
+                }
+                std::mem::forget(e);
+            }
+            12 => {
+                s.0.shrink_to_fit();
+                s.0.reserve(k);
+            }
+            _ => {
+                s.0.retain(|x| {
+                    x.check();
+                    x.id() % 3 != 0
+                });
+            }
+        }
+        let f = s.validate("C02 set");
+        c.sig_parts(&[crate::validate::state_sig(&f) as u64, 700 + op]);
+        let n = s.0.iter().map(|x| x.check()).count();
+        crate::check!(n == s.len(), "HashSet iter() yields {} but len() is {}", n, s.len());
+        if crate::util::has_violation() {
+            break;
+        }
+    }
+    s.0.clear();
+    drop(s);
+    drop(other);
 }
